@@ -19,6 +19,7 @@ import (
 	"fmt"
 	"go/format"
 	"go/types"
+	"sort"
 	"strconv"
 )
 
@@ -184,12 +185,37 @@ func (tm *typesMap) nameOf(typs []types.Type) (string, bool) {
 			}
 		}
 	}
+	// More than one registered function can accept typs (an unnamed type is assignable to every
+	// named type with that underlying type), so the choice must not depend on map iteration order:
+	// prefer the function registered for exactly these types, otherwise the smallest name.
+	var names []string
 	for name, ts := range tm.funcToTyps {
 		if eq(typs, ts) {
+			names = append(names, name)
+		}
+	}
+	if len(names) == 0 {
+		return "", false
+	}
+	sort.Strings(names)
+	for _, name := range names {
+		if identical(typs, tm.funcToTyps[name]) {
 			return name, true
 		}
 	}
-	return "", false
+	return names[0], true
+}
+
+func identical(this, that []types.Type) bool {
+	if len(this) != len(that) {
+		return false
+	}
+	for i, t := range this {
+		if !types.Identical(types.Default(t), types.Default(that[i])) {
+			return false
+		}
+	}
+	return true
 }
 
 func (tm *typesMap) Generating(typs ...types.Type) {
